@@ -95,8 +95,26 @@ def run(ctx):
                 cases.append({"cfg": {"sb": sb, "rb": "", "style": 0, "tag": "C05-types"}, "ops": ops})
     cases += many_chunks() + random_big(ctx, 3000 if thorough else 400)
     path = ctx.write_cases(cases)
-    trace, dout = ctx.drive("ops", path, env={"H5V_VIEW": "indep"})
+    trace, dout = ctx.drive("ops", path, env={"H5V_VIEW": "indep", "H5V_IOLOG": "1"})
     H.log(dout.strip())
+    # 0. extended coverage, no verdict: the I/O log of every history (each allocation and write of the low-level file
+    #    writer, recorded by the tag-guarded hook) against the allocation discipline of Layout.tla
+    ctx.model_check("Layout.tla", "Layout_design_thorough.cfg" if thorough else "Layout_design.cfg", workers=min(8, ctx.workers), timeout=1500)
+    rc = ctx.tlc("Layout.tla", "Layout_code_roundup.cfg", workers=2, timeout=300)
+    if rc.ok or not rc.violated:
+        raise H.Infra("Layout with CODE_WriteRoundedUp no longer yields a counterexample")
+    v0, _ = ctx.validate("LayoutTrace.tla", "Layout_trace.cfg", trace)
+    io_notes = collections.Counter()
+    for b in v0["bad"]:
+        for it in b.get("items", []):
+            io_notes[it.get("diag")] += 1
+    for b in v0["bad"][:5]:
+        it = b["items"][0]
+        H.log("NOTE extended-coverage io-log: %s in case %s: %s" % (it.get("diag"), json.dumps(cases[b["case"]]["cfg"]), json.dumps(it)[:300]))
+    if v0["bad"]:
+        H.log("NOTE extended-coverage io-log: %d histories leave the allocation discipline of Layout.tla (%s)" % (len(v0["bad"]), dict(io_notes)))
+    if v0["stats"]["logs"] + len(v0["bad"]) == 0:
+        raise H.Infra("no I/O log was recorded: the hook in internal/writer is not reached")
     # 1. layout: bounds, disjointness, decodability, format rules
     v1, s1 = ctx.validate("C05Trace.tla", "C05_trace.cfg", trace)
     # 2. content: the tree and values the independent decoder recovers against the model of the history
@@ -124,7 +142,9 @@ def run(ctx):
                 "end-of-file address) and pairwise disjointness, every format rule the decoder evaluated (signatures, versions, size fields, "
                 "checksums, ordering, capacity of fixed-size nodes), and - with the H5LogicalTrace judge - that the tree, types, shapes, values and "
                 "attributes the decoder recovers are the model state of the history; non-trivial = histories of at least two calls",
-        "decoder_qualification": qual, "generators": per_model, "states": states, "transitions": trans,
+        "decoder_qualification": qual, "generators": per_model,
+        "extended_coverage_io_log": {"module": "spec/design/Layout.tla, spec/trace/LayoutTrace.tla", "stats": v0["stats"],
+                                     "histories_outside_the_discipline": len(v0["bad"]), "by_diagnosis": dict(io_notes)}, "states": states, "transitions": trans,
         "traces_validated_against_impl": st["files"],
         "samples": [cases[0], cases[len(cases) // 2]],
         "layout_stats": st, "content_stats": v2["stats"], "rejected_layout": len(v1["bad"]), "rejected_content": len(v2["bad"]),
